@@ -11,7 +11,7 @@ func ProfileFull(avoid map[string]string) *Profile {
 		MaxServices: 2, MaxMethods: 3, Transport: true, BasePaths: true, OddBasePaths: true, DefaultPaths: true, Headers: true,
 		RepeatedQuery: true, QueryOnBody: true, SharedRequest: true,
 		Stratified: true, Features: Features(AllFeatures...), MultiFeature: true, AnnotatedNested: true, AnnotateAnyCard: true, MultiWordChild: true,
-		Rules: true, Examples: true, Avoid: avoid}
+		Rules: true, Examples: true, HostileText: true, Avoid: avoid}
 }
 
 // ProfilePlain has no JSON-mapping annotations: plain proto3 JSON everywhere.
